@@ -126,3 +126,37 @@ package ociunify
 //@   ensures[single-holder-answers] r0.err == nil && r1.err != nil ==> result.1 == nil && result.0 == r0.x
 //@   ensures[single-holder-answers-second] r0.err != nil && r1.err == nil ==> result.1 == nil && result.0 == r1.x
 
+
+// The paired upload writer: both members' writers get every call; success is
+// reported only if both succeeded.
+//@ iface-ensures Interface.PushBlobChunked(ctx, repo, chunkSize) result.1 == nil ==> result.0 != nil
+//@ iface-ensures Interface.PushBlobChunkedResume(ctx, repo, id, offset, chunkSize) result.1 == nil ==> result.0 != nil
+//@ immutable unifiedBlobWriter.w, unifiedBlobWriter.u
+//@ invariant (*unifiedBlobWriter) self != nil && self.w[0] != nil && self.w[1] != nil
+//@ func (unifier).PushBlobChunked
+//@   ensures[needs-both-writers] result.1 == nil ==> r0.err == nil && r1.err == nil
+//@ func (unifier).PushBlobChunkedResume
+//@   private ids
+//@   ensures[needs-both-writers-at-the-same-size] result.1 == nil ==> r0.err == nil && r1.err == nil
+//@ func (unifier).PushBlobChunkedResume$1
+//@   requires len(ids) == 2 && (i == 0 || i == 1) && r != nil
+//@ func (*unifiedBlobWriter).Write$1
+//@   requires i == 0 || i == 1
+//@ func (*unifiedBlobWriter).Close$1
+//@   requires i == 0 || i == 1
+//@ func (*unifiedBlobWriter).Cancel$1
+//@   requires i == 0 || i == 1
+//@ func (*unifiedBlobWriter).Commit$1
+//@   requires i == 0 || i == 1
+//@ func (*unifiedBlobWriter).Write
+//@   private w
+//@   ensures[written-to-both-or-failed] result.1 == nil ==> result.0 == len(buf) && w.size == old(w.size) + len(buf) &&
+//@     calls == [w.w[0].Write(buf), w.w[1].Write(buf)] && calls[0].result.1 == nil && calls[1].result.1 == nil
+//@   ensures[failure-is-reported] result.1 != nil ==> result.0 == 0 && w.size == old(w.size)
+//@ func (*unifiedBlobWriter).Commit
+//@   ensures[committed-on-both-or-failed] calls == [w.w[0].Commit(digest), w.w[1].Commit(digest)] &&
+//@     (result.1 == nil ==> calls[0].result.1 == nil && calls[1].result.1 == nil && result.0 == calls[0].result.0)
+//@ func (*unifiedBlobWriter).Close
+//@   ensures[closed-on-both] calls == [w.w[0].Close(), w.w[1].Close()] && (result == nil) == (calls[0].result == nil && calls[1].result == nil)
+//@ func (*unifiedBlobWriter).Cancel
+//@   ensures[cancelled-on-both] calls == [w.w[0].Cancel(), w.w[1].Cancel()] && (result == nil) == (calls[0].result == nil && calls[1].result == nil)
